@@ -185,8 +185,10 @@ class Case:
                 tok = {"k": "attr", "name": name, "has": has, "opt": form != "plain", "n": nn, "m": mm, "spec": spec}
                 self.tokens.append(tok)
                 self.pattern += u("%{" + name + suffix + (":" + st if st else "") + "}")
-                if mm:
+                if mm and r.random() < 0.7:
                     self.emit_lit(rand_text(r, mm, mm + 3, avoid=(37,)))
+                # (otherwise the removal count stays pending: it adds up with the next absent attribute's, is dropped by
+                # the next value that is not empty, and applies to the next literal text)
                 if not has and (nn or mm):
                     self.features.add("optional-removal")
                 if has and self.attrs[name][0] == "s" and 0x200B in self.attrs[name][1]:
